@@ -42,6 +42,18 @@ impl<'a> VxRange<'a> {
 pub struct TextResource { _p: usize }
 impl TextResource {
     pub uninterp spec fn sel(&self, h: TextSelectionHandle) -> Option<TextSelection>;
+    /// ghost: the entries of the position index, in key order; the length of the text
+    pub uninterp spec fn index(&self) -> Seq<(usize, PositionIndexItem)>;
+    pub uninterp spec fn tl(&self) -> usize;
+    /// R-outline: stands for `self.positionindex.0.range((Included(&begin), Excluded(&end)))`.  Trusted (std): the entries whose
+    /// key lies in the half-open range, in key order.
+    #[verifier::external_body]
+    pub fn vx_index_range<'a>(&'a self, begin: usize, end: usize) -> (r: VxRange<'a>)
+        ensures r.rem() == entries_between(self.index(), begin as int, end as int),
+    { unimplemented!() }
+    /// stands for `impl Text for TextResource { fn textlen(&self) -> usize { self.textlen } }`
+    #[verifier::external_body]
+    pub fn textlen(&self) -> (r: usize) ensures r == self.tl(), { unimplemented!() }
     /// stands for StoreFor<TextSelection>::get(handle) on a TextResource (contract proved for the generic StoreFor::get in u_store)
     #[verifier::external_body]
     pub fn get(&self, h: TextSelectionHandle) -> (r: Result<&TextSelection, StamError>)
@@ -51,6 +63,10 @@ impl TextResource {
 '''
 
 SPEC = r'''
+/// the entries with lo <= key < hi, in order
+pub open spec fn entries_between(idx: Seq<(usize, PositionIndexItem)>, lo: int, hi: int) -> Seq<(usize, PositionIndexItem)> {
+    idx.filter(|e: (usize, PositionIndexItem)| lo <= e.0 < hi)
+}
 pub open spec fn handles_of(s: Seq<(usize, TextSelectionHandle)>) -> Seq<TextSelectionHandle> { Seq::new(s.len(), |i: int| s[i].1) }
 
 /// the handles listed by begin in the entries, front to back
@@ -171,6 +187,22 @@ def build():
            rewrites=[('R-opaque', r"btree_map::Range<'a, usize, PositionIndexItem>", "VxRange<'a>"),
                      ('R-vis', r'(?m)^(\s*)(iter|begin2enditer|end2beginiter|resource):', r'\1pub \2:')])
     u.spec(SPEC, 'contracts/u_tsiter.py:SPEC')
+    u.impl(T, 'impl TextSelection', [
+        Fn('begin', props=P, ret='r', ensures=[('begin', 'r == self.begin')]),
+        Fn('end', props=P, ret='r', ensures=[('end', 'r == self.end')]),
+    ])
+    # TextResource::range / iter: which entries of the index a walk starts with (BTreeMap::range outlined)
+    u.impl(R, 'impl TextResource', [
+        Fn('range', props=P, ret='r',
+           rewrites=[('R-outline', r'(?s)self\s*\.positionindex\s*\.0\s*\.range\(\(Included\(&begin\), Excluded\(&end\)\)\)', 'self.vx_index_range(begin, end)')],
+           ensures=[('entries_of_the_range', 'r.iter.rem() == entries_between(self.index(), begin as int, end as int)'),
+                    ('fresh', 'r.begin2enditer is None && r.end2beginiter is None && *r.resource == *self'),
+                    ('ok', 'r.ok()')]),
+        Fn('iter', props=P, ret='r',
+           requires=[('fits', 'self.tl() < usize::MAX')],
+           ensures=[('all_entries', 'r.iter.rem() == entries_between(self.index(), 0, self.tl() as int + 1)'),
+                    ('fresh', 'r.begin2enditer is None && r.end2beginiter is None && *r.resource == *self')]),
+    ])
 
     def it_fn(name, seq, other, cur, flat_lemma):
         return Fn(name, props=P, ret='r',
